@@ -134,7 +134,9 @@ CHECKS["C08"] = dict(
     technique="exhaustive enumeration of struct definitions (every ordered field tuple over the field alphabet) x field values; generated JS executed in Node against a stub wasm memory; reference = rustc's layout of the same definitions + reference argument flattening for both wasm ABIs",
     text="For every struct the generated _writeToArrayBuffer output, _fromFFI read-back, the DiplomatReceiveBuf size/align of a method returning it (bare and wrapped in six Result/Option shapes, where the stub export writes payload and flag at rustc's offsets and the decoded arm and payload are compared) and the argument list of a method "
          "taking it (js.abi = legacy and spec) are obtained by executing the real generated .mjs, and compared with rustc's offsets/size/align for the same repr(C) definitions "
-         "(32-bit pointers substituted) and with the documented wasm argument-passing rules; memory is prefilled so unwritten bytes show.",
+         "(32-bit pointers substituted) and with the documented wasm argument-passing rules; memory is prefilled so unwritten bytes show. Slice fields cover every primitive element "
+         "kind (allocation size/alignment and content compared), and the bundled runtime's DiplomatBuf.slice / strs are probed for every view kind with the allocation placed at the "
+         "end of the memory and with an allocation that grows the memory.",
     note="Trusted: host rustc as wasm32 layout engine for these definitions (all scalars have identical size/align), the reference flattening written from docs/wasm_abi_quirks.md "
          "(legacy) and the wasm BasicCABI (spec, cross-checked once with clang --target=wasm32); Node's typed arrays.")
 
@@ -149,10 +151,12 @@ CHECKS["C09"] = dict(
 
 CHECKS["C10"] = dict(
     category="exploration", design="§2 C10",
-    technique="same enumeration as C01 restricted to Option/Result shapes, plus sizeof-vs-size_of comparison for every result record and declaration comparison of std/DiplomatOption spelling pairs",
+    technique="same enumeration as C01 restricted to Option/Result shapes, plus sizeof-vs-size_of comparison for every result record and declaration comparison of std/DiplomatOption spelling pairs; generated JS executed in Node against a recording stub wasm module for Option parameters",
     text="Every payload type allowed in Option/Result, in parameter, return and struct-field position: optional pointers must be NULL exactly when absent, all other optionals/results "
          "must arrive as {payload, is_ok} with the right arm and payload bytes, C's sizeof of each record must equal rustc's size_of (unit arms add no payload), and the two spellings "
-         "of each optional must yield identical C declarations and identical behaviour.",
+         "of each optional must yield identical C declarations and identical behaviour. JS half: Option<T> parameters of every payload type (both spellings, alone and between other "
+         "parameters, None / Some(zero-like) / Some(v)) are passed through the generated JS under Node for js.abi = spec (pointer to an allocated {payload, is_ok} record, bytes "
+         "compared) and legacy (payload bit pattern, is_ok, padding).",
     note="Trusted: as C01. Shares the generated crate and headers with C01.")
 
 CHECKS["C11"] = dict(
